@@ -27,6 +27,7 @@ impl Panic {
 
 thread_local! {
     static LAST: RefCell<Option<Panic>> = const { RefCell::new(None) };
+    static DEPTH: std::cell::Cell<u32> = const { std::cell::Cell::new(0) };
 }
 static INIT: Once = Once::new();
 
@@ -44,6 +45,10 @@ pub fn install() {
                 .location()
                 .map(|l| (l.file().to_string(), l.line()))
                 .unwrap_or(("?".into(), 0));
+            if DEPTH.with(|d| d.get()) == 0 {
+                // not inside a monitored call: a harness bug, make it visible
+                eprintln!("HARNESS PANIC at {file}:{line}: {msg}");
+            }
             LAST.with(|l| *l.borrow_mut() = Some(Panic { msg, file, line }));
         }));
     });
@@ -52,7 +57,10 @@ pub fn install() {
 pub fn guard<T>(f: impl FnOnce() -> T) -> Result<T, Panic> {
     install();
     LAST.with(|l| *l.borrow_mut() = None);
-    match panic::catch_unwind(AssertUnwindSafe(f)) {
+    DEPTH.with(|d| d.set(d.get() + 1));
+    let r = panic::catch_unwind(AssertUnwindSafe(f));
+    DEPTH.with(|d| d.set(d.get() - 1));
+    match r {
         Ok(v) => Ok(v),
         Err(_) => Err(LAST.with(|l| l.borrow_mut().take()).unwrap_or(Panic {
             msg: "<panic without hook record>".into(),
